@@ -17,6 +17,7 @@ import (
 	"sort"
 	"strings"
 	"sync"
+	"syscall"
 	"time"
 
 	"github.com/piotrnar/gocoin/lib/btc"
@@ -757,8 +758,20 @@ func main() {
 	}
 	defer removePrefixes()
 	scs := scenarios()
+	if *worker == "" && *racePass == 0 {
+		// the parent runs default executions and replays itself
+		lim := syscall.Rlimit{Cur: 8 << 30, Max: 8 << 30}
+		syscall.Setrlimit(syscall.RLIMIT_AS, &lim)
+	}
 
 	if *worker != "" {
+		// what an earlier execution left on disk is read back by the code under test: a damaged snapshot
+		// must not be able to take the machine's memory (a worker that hits the limit dies with Go's
+		// out-of-memory error and is reported as worker-process-died)
+		lim := syscall.Rlimit{Cur: 3 << 30, Max: 3 << 30} // 16 workers: the sum stays below the machine's memory
+		if err := syscall.Setrlimit(syscall.RLIMIT_AS, &lim); err != nil {
+			ev.HarnessError("setrlimit: %v", err)
+		}
 		for _, sc := range scs {
 			if sc.name == *worker {
 				workerMain(prefixFor(sc), sc)
